@@ -1294,6 +1294,8 @@ def make_builtins(I):
     def b_tuple(x=()):
         if isinstance(x, IterVal):
             x = x.drain()
+        if isinstance(x, SymSet):
+            x = set_enumeration(x)                  # arbitrary order, as for list(set)
         if isinstance(x, SymSeq):
             r = SymSeq(x.length, x.elem, "tuple", x.name)
             if hasattr(x, "origin_set"):
@@ -1315,6 +1317,41 @@ def make_builtins(I):
         r = SymSeq(n, lambda i, arr=arr: arr[to_z3(i)], "list")
         r.origin_set = x.arr
         return r
+
+    _HS = z3.Function("hash_of_set", z3.ArraySort(IntS, z3.BoolSort()), IntS)
+    _HQ = z3.Function("hash_of_seq", IntS, z3.ArraySort(IntS, IntS), IntS)
+
+    def b_hash(o):
+        """hash(): an uninterpreted function of the VALUE - of the set for (frozen)sets of ints, of (length, elements in order) for tuples of ints;
+        objects of the repo use their __hash__; everything else hashes by identity (object.__hash__)"""
+        if isinstance(o, SymSet):
+            return _HS(o.arr)
+        if isinstance(o, (set, frozenset)) and all(isinstance(e, int) or is_sym_int(e) for e in o):
+            arr = EMPTY
+            for e in o:
+                arr = z3.Store(arr, to_z3(e), True)
+            return _HS(arr)
+        if isinstance(o, (tuple, list, SymSeq)):
+            sq = as_symseq(o) if not isinstance(o, SymSeq) else o
+            j = z3.Int(I.path.fresh_name("j_h"))
+            try:
+                body = to_z3(sq.elem(j))
+            except Exception:
+                raise Unsupported("hash of a sequence of non-integers")
+            if not z3.is_int(body):
+                raise Unsupported("hash of a sequence of non-integers")
+            n = to_z3(sq.length)
+            return _HQ(n, z3.Lambda([j], z3.If(z3.And(j >= 0, j < n), body, z3.IntVal(0))))      # only the first `length` elements matter
+        if isinstance(o, Obj):
+            m = I.repo.find_method(o.cls, "__hash__")
+            if m is not None:
+                return I.call_func(FuncVal(m, o, cls_ctx=m.cls), [], {})
+            return id(o)
+        if isinstance(o, bool):
+            return int(o)
+        if isinstance(o, int) or is_sym_int(o):
+            return o
+        return id(o)
 
     def b_list(x=()):
         if isinstance(x, IterVal):
@@ -1583,7 +1620,7 @@ def make_builtins(I):
             (a.dotted, b.dotted) in {("numpy.float64", "numpy.floating"), ("numpy.float32", "numpy.floating"), ("numpy.int64", "numpy.integer"), ("numpy.complex128", "numpy.complexfloating")}
             if isinstance(a, ExternalVal) and isinstance(b, ExternalVal) else False),
         "map": lambda f, *xs: [I.call(f, list(a), {}) for a in zip(*[iterate(I, x) for x in xs])],
-        "hash": lambda o: id(o), "complex": lambda *a: complex(*a), "slice": lambda *a: slice(*a),
+        "hash": b_hash, "complex": lambda *a: complex(*a), "slice": lambda *a: slice(*a),
         "filter": lambda f, xs: [x for x in iterate(I, xs) if I.decide(I.call(f, [x], {}) if f is not None else x)],
     }
     out = {k: Builtin(k, v) for k, v in tab.items()}
